@@ -23,6 +23,20 @@ fn check_prefix(bytes: &[u8], cut: usize) -> Result<(), Failure> {
     }
 }
 
+fn check_prefix_file(bytes: &[u8], cut: usize, lane: u64) -> Result<(), Failure> {
+    let dir = format!("{}/c13-scratch", target_dir());
+    let _ = std::fs::create_dir_all(&dir);
+    let path = format!("{}/{}-{}.ase", dir, std::process::id(), lane);
+    std::fs::write(&path, &bytes[..cut]).map_err(|e| Failure::new("harness", format!("scratch write: {}", e)))?;
+    let r = guarded(|| AsepriteFile::read_file(std::path::Path::new(&path)));
+    let _ = std::fs::remove_file(&path);
+    match r {
+        Ok(Err(_)) => Ok(()),
+        Ok(Ok(f)) => Err(Failure::new("prefix-loaded-read-file", format!("read_file of a {}-byte prefix (file {} bytes) loaded as a sprite with {} frames, {} layers", cut, bytes.len(), f.num_frames(), f.num_layers()))),
+        Err((loc, msg)) => Err(Failure::new(format!("prefix-panic:{}", short_loc(&loc)), format!("read_file of a {}-byte prefix panicked at {}: {}", cut, short_loc(&loc), msg))),
+    }
+}
+
 pub fn run(run: &mut Run) {
     run.rule = "files: well-formed generated sprites (encoded with random plans, no trailing garbage dependence: cuts range over 0..end of last frame as given by the encoder's field map) and the repository's golden files (end of last frame from the independent scanner). Every cut offset 0 <= c < L is loaded (files above 64 KiB: every offset in the first 4 KiB, every chunk/frame boundary +-8, and a seeded sample). Oracle: AsepriteFile::read(prefix) is Err - never Ok, never a panic. A case is one (file, cut); non-trivial: cut > 128 (past the header); distinct by (file hash, cut)".into();
     let nfiles = if run.thorough() { 6000 } else { 300 };
@@ -115,6 +129,56 @@ pub fn run(run: &mut Run) {
             }
         }
     }
+    // the path-based entry point on a sample of cuts of every file (chunk boundaries +-1 and 24 seeded cuts)
+    let mut fwork: Vec<(u32, u32)> = vec![];
+    for (fi, (_, b, l, bounds)) in files.iter().enumerate() {
+        if AsepriteFile::read(&b[..]).is_err() {
+            continue;
+        }
+        let mut cuts: Vec<usize> = vec![0, 1, 127, 128, 129, l - 1, l.saturating_sub(2), l.saturating_sub(5)];
+        for bd in bounds.iter().take(40) {
+            cuts.push(bd.saturating_sub(1));
+            cuts.push(*bd);
+            cuts.push(bd + 1);
+        }
+        let mut r = Rng(lane_seed(seed, "C13-readfile", fi as u64));
+        for _ in 0..24 {
+            cuts.push(r.below(*l as u64) as usize);
+        }
+        cuts.retain(|c| c < l);
+        cuts.sort();
+        cuts.dedup();
+        for c in cuts {
+            fwork.push((fi as u32, c as u32));
+        }
+    }
+    let fres = par_chunks(
+        16,
+        fwork.len() as u64,
+        || (Stats::default(), Vec::<Violation>::new()),
+        |acc, i| {
+            let (fi, c) = fwork[i as usize];
+            let (name, b, _, _) = &files[fi as usize];
+            match check_prefix_file(b, c as usize, i % 16) {
+                Ok(()) => acc.0.record(&Outcome::new(c > 128, hashes[fi as usize] ^ crate::encode::mix(c as u64, 0xF11E)).label("entry:read_file")),
+                Err(f) => {
+                    acc.0.evaluations += 1;
+                    if acc.1.len() < 2 {
+                        acc.1.push(Violation { case: json!({"hex": hex(&b[..c as usize]), "file": name, "cut": c, "full_len": b.len(), "read_file": true}), failure: f });
+                    }
+                }
+            }
+        },
+    );
+    for (st, vs) in fres {
+        run.stats.merge(st);
+        for v in vs {
+            if !run.is_known(&v.failure.signature) && !run.violations.iter().any(|x| x.failure.signature == v.failure.signature) {
+                run.violations.push(v);
+            }
+        }
+    }
+    run.extra.insert("read_file_prefixes".into(), json!(fwork.len()));
     run.extra.insert("files".into(), json!(files.len()));
     run.extra.insert("distinct_files".into(), json!(hashes.iter().collect::<std::collections::HashSet<_>>().len()));
     run.exhaustive = Some(true);
@@ -122,5 +186,8 @@ pub fn run(run: &mut Run) {
 
 pub fn replay(case: &serde_json::Value) -> CheckResult {
     let b = unhex(case.get("hex").and_then(|h| h.as_str()).unwrap_or(""));
+    if case.get("read_file").and_then(|x| x.as_bool()).unwrap_or(false) {
+        return check_prefix_file(&b, b.len(), 99).map(|_| Outcome::new(true, 0));
+    }
     check_prefix(&b, b.len()).map(|_| Outcome::new(true, 0))
 }
